@@ -36,7 +36,9 @@ RULE = ("schedules of real threads over the real in-memory transport: bounded-pr
         "channels; exact and wildcard patterns). distinct = hash of the executed (thread, position) sequence + scenario + granularity; "
         "non-trivial = at least one preemption, or some thread ran again after another thread ran")
 SHARDS = {"quick": 1, "thorough": 16}
-SHARD_TIMEOUT = {"thorough": 2400}
+SHARD_TIMEOUT = {"quick": 1800, "thorough": 3600}
+_T0 = time.time()
+SOFT_BUDGET_S = {"quick": 900, "thorough": 1800}      # random exploration stops widening after this (verdict unaffected)
 
 WATCHDOG_S = 120.0
 
@@ -535,6 +537,10 @@ def explore_random(run, acct, H, rng, n_total, strategy, offset=0):
     for i in range(n_total):
         if i % n != i0:
             continue
+        if time.time() - _T0 > SOFT_BUDGET_S[run.tier]:
+            # a loaded machine: the random walks stop widening; what was explored is what the evidence reports
+            run.count(f"random_schedules_not_run_time_budget_{strategy}", len(range(i, n_total, n)))
+            break
         scn = SCENARIOS[(i + offset) % len(SCENARIOS)]
         if strategy == "pct":
             depth = 1 + (i // len(SCENARIOS)) % 3
@@ -721,6 +727,9 @@ def pin_cpu(run):
 
     try:
         cpus = sorted(os.sched_getaffinity(0))
+        if os.getloadavg()[0] > len(cpus) / 2:
+            run.info["cpu_pinning"] = "off (machine loaded: a pinned process cannot move to an idle core)"
+            return
         base = os.getppid() if run.shard[1] > 1 else os.getpid()     # spread concurrent checks over the cores
         os.sched_setaffinity(0, {cpus[(base + run.shard[0]) % len(cpus)]})
     except (AttributeError, OSError):
